@@ -53,7 +53,7 @@ TOPOS_ALL = {
 TOPOS_QUICK_FORCED = TOPOS_ALL - {_T({1}, {2}, {3})}
 
 MC_INV = [
-    "SumsToRequested", "FailedPowerIsFailedSetpoints", "SetsDisjoint", "SetsCoverAddressed",
+    "SumsToRequested", "FailedPowerIsFailedSetpoints", "SetsDisjoint", "SetsCoverAddressed", "FailedSetIsFailedCalls",
     "PVSetpointsWithinBounds", "SucceededIsSucceededSetpoints", "WaterFillExact", "WaterFillConserves",
     "EveryAllocationIsCalled", "TypeOfResult", "StaleFormulaIsDetected", "UnaddressedNotReported",
 ]
@@ -71,8 +71,8 @@ BASE = dict(
 SCOPES = {
     "quick": dict(
         pv=dict(PVSorted=True), pv_limit=4000,
-        bat=dict(Topos=TOPOS_QUICK_FORCED, SetGrid={-2, 1}), bat_limit=4000,
-        batreal=dict(), batreal_limit=4000,
+        bat=dict(Topos=TOPOS_QUICK_FORCED), bat_limit=4000,
+        batreal=dict(Profiles=4), batreal_limit=4000,
     ),
     "thorough": dict(
         pv=dict(Orders="any", PVBounds={0, -12, -24, -36}, PVReqs={-6 * k for k in range(13)}), pv_limit=None,
@@ -220,7 +220,7 @@ def _bat_profile(prof: int, n_inv: int, bats: list[int]):
     """Component data of the battery side (built here, the model does not look at it).
 
     0: wide bounds (forced distribution)   1: plain   2: exclusion bounds (lost-power regime of C01)
-    3: uneven SoC / capacity / bounds      4: one battery without headroom
+    3: uneven SoC / capacity / bounds      4: battery 1 at its upper, battery 3 at its lower SoC bound
     """
     bd, idt = {}, {}
     for b in bats:
@@ -233,7 +233,7 @@ def _bat_profile(prof: int, n_inv: int, bats: list[int]):
         elif prof == 3:
             bd[b] = dict(soc=[30.0, 55.0, 80.0][b - 1], cap=[1000.0, 3000.0, 700.0][b - 1], il=-900.0 - 300 * b, el=0.0, eu=0.0, iu=700.0 + 200 * b)
         else:
-            bd[b] = dict(soc=[90.0, 50.0, 10.0][b - 1], cap=1000.0, il=-1000.0, el=-100.0, eu=100.0, iu=1000.0)
+            bd[b] = dict(soc=[90.0, 50.0, 10.0][b - 1], cap=1000.0, il=-1000.0, el=0.0, eu=0.0, iu=1000.0)
     for i in range(1, n_inv + 1):
         if prof == 0:
             idt[i] = dict(il=-100000.0, el=0.0, eu=0.0, iu=100000.0)
@@ -244,7 +244,7 @@ def _bat_profile(prof: int, n_inv: int, bats: list[int]):
         elif prof == 3:
             idt[i] = dict(il=-400.0 - 300 * i, el=0.0, eu=0.0, iu=300.0 + 350 * i)
         else:
-            idt[i] = dict(il=-800.0, el=-100.0, eu=100.0, iu=800.0)
+            idt[i] = dict(il=-800.0, el=0.0, eu=0.0, iu=800.0)
     return bd, idt
 
 
@@ -407,7 +407,8 @@ def _witness(recs: list[dict]) -> dict:
     w = dict(records=0, partial_failure=0, success=0, rejected=0, some_call_failed=0, timeout=0, excess_nonzero=0,
              failed_power_nonzero=0, multi_component_inverter=0, shared_battery_mixed_outcome=0, pv_bound_binding=0,
              instant_replies=0, lost_power=0, unusable_battery=0, unaddressed_battery=0, unaddressed_and_some_call_failed=0,
-             unaddressed_and_all_calls_ok=0)
+             unaddressed_and_all_calls_ok=0, zero_setpoint_call_failed=0, zero_setpoint_failed_nonzero_request=0,
+             only_zero_setpoint_calls_failed=0)
     by_out = {o: 0 for o in ("ok", "oor", "err", "exc", "to")}
     for r in recs:
         w["records"] += 1
@@ -426,6 +427,12 @@ def _witness(recs: list[dict]) -> dict:
         else:
             w["rejected"] += 1
         w["some_call_failed"] += any(replies.get(c["c"], "to") != "ok" for c in calls)
+        if res["type"] in ("Success", "PartialFailure"):
+            fz = [c for c in calls if replies.get(c["c"], "to") != "ok"]
+            rq = next((e["req"] for e in ev if e["e"] == "request"), 0)
+            w["zero_setpoint_call_failed"] += any(c["p"] == 0 for c in fz)
+            w["zero_setpoint_failed_nonzero_request"] += rq != 0 and any(c["p"] == 0 for c in fz)
+            w["only_zero_setpoint_calls_failed"] += bool(fz) and all(c["p"] == 0 for c in fz)
         w["timeout"] += any(e["e"] == "timeout" for e in ev)
         w["excess_nonzero"] += res["ex"] != 0
         w["failed_power_nonzero"] += res["fp"] != 0
@@ -457,7 +464,7 @@ def _witness(recs: list[dict]) -> dict:
 
 
 _MIN_WITNESS_BAT = ["unaddressed_and_some_call_failed", "unaddressed_and_all_calls_ok", "shared_battery_mixed_outcome"]
-_MIN_WITNESS = ["partial_failure", "success", "some_call_failed", "timeout", "excess_nonzero", "failed_power_nonzero"]
+_MIN_WITNESS = ["zero_setpoint_call_failed", "zero_setpoint_failed_nonzero_request", "only_zero_setpoint_calls_failed", "partial_failure", "success", "some_call_failed", "timeout", "excess_nonzero", "failed_power_nonzero"]
 
 
 def _stage(rep: Report, prop: str, name: str, consts: dict, work: Path, limit):
